@@ -7,6 +7,7 @@ package main
 import (
 	"bytes"
 	"fmt"
+	"regexp"
 	"sort"
 	"strconv"
 	"strings"
@@ -22,6 +23,14 @@ func init() {
 		Rule: "documents: the repo's corpora (spec.json, _test/*.txt, extension/_test/*.txt) + mutants + grammar-generated + adversarial fragments, each under several configurations; trees: random ASTs built through the public node constructors (not parser-shaped); non-trivial = the tree has an inline non-text kind or >= 2 block kinds; distinct = distinct (configuration class, kind multiset)",
 		Gen:  genRender,
 		Impl: implRender,
+		// per-property projection of a disagreement: C03 and C10 are about every byte; C04 only about href/src values
+		Affects: func(cs Case, impl, model string) []string {
+			r := []string{"C03", "C10"}
+			if !equalStrings(renderURLAttrValues(impl), renderURLAttrValues(model)) {
+				r = append(r, "C04")
+			}
+			return r
+		},
 		Scope: func(tier string) string {
 			if tier == "thorough" {
 				return "all corpus documents x 8 corner configurations + 60k generated documents x random configurations of the full lattice + 30k random API-built trees"
@@ -362,4 +371,38 @@ func buildRandomTree(rng *RNG) ([]byte, ast.Node) {
 		doc.AppendChild(doc, b.node(3))
 	}
 	return b.src, doc
+}
+
+var renderURLAttrRe = regexp.MustCompile(`(?:href|src)="([^"]*)"`)
+
+func renderURLAttrValues(hexOut string) []string {
+	if strings.HasPrefix(hexOut, "panic") || hexOut == "bad-op" {
+		return []string{hexOut}
+	}
+	var r []string
+	for _, m := range renderURLAttrRe.FindAllSubmatch(unhxSafe(hexOut), -1) {
+		r = append(r, string(m[1]))
+	}
+	return r
+}
+
+func unhxSafe(s string) (b []byte) {
+	defer func() {
+		if recover() != nil {
+			b = []byte(s)
+		}
+	}()
+	return unhx(s)
+}
+
+func equalStrings(a, b []string) bool {
+	if len(a) != len(b) {
+		return false
+	}
+	for i := range a {
+		if a[i] != b[i] {
+			return false
+		}
+	}
+	return true
 }
